@@ -313,12 +313,15 @@ def check_interval_endpoints(run, ix, rule):
         for sa, sb, ta, tb in itertools.product(IK, IK, IK, IK):
             if rank[sa] > rank[sb] or rank[ta] > rank[tb]:
                 continue
-            if (sa == sb and sa in ('NINF', 'PINF')) or (ta == tb and ta in ('NINF', 'PINF')):
-                continue
-            tr = _true_range(op, (REP_LO[sa], REP_HI[sb]), (REP_LO[ta], REP_HI[tb]))
-            if tr is None or tr[0] != tr[0] or tr[1] != tr[1]:
-                continue
-            want_lo, want_hi = _cls(tr[0]), _cls(tr[1])
+            # a point at infinity as operand, or a range that is not defined on the whole box (inf - inf,
+            # inf / inf, 0 in the divisor): no enclosure to compare with, but an endpoint must still never be nan
+            nan_only = (sa == sb and sa in ('NINF', 'PINF')) or (ta == tb and ta in ('NINF', 'PINF'))
+            tr = None
+            if not nan_only:
+                tr = _true_range(op, (REP_LO[sa], REP_HI[sb]), (REP_LO[ta], REP_HI[tb]))
+                if tr is None or tr[0] != tr[0] or tr[1] != tr[1]:
+                    nan_only = True
+            want_lo, want_hi = (None, None) if nan_only else (_cls(tr[0]), _cls(tr[1]))
             s = CTuple([mk(sa, '_sa'), mk(sb, '_sb')])
             t = CTuple([mk(ta, '_ta'), mk(tb, '_tb')])
             out = set()
@@ -358,6 +361,8 @@ def check_interval_endpoints(run, ix, rule):
                 for e_, want, side in ((lo, want_lo, 'lower'), (hi, want_hi, 'upper')):
                     if e_ == 'NAN':
                         ok, why = False, 'the %s endpoint can be nan' % side
+                    elif nan_only:
+                        pass
                     elif e_ == 'FIN':
                         # a finite value of unknown sign: acceptable only where a finite bound is admissible
                         if (side == 'lower' and want == 'NINF') or (side == 'upper' and want == 'PINF'):
